@@ -13,6 +13,7 @@
 import Rva.Proofs.C07b
 import Rva.Proofs.C07
 import Rva.Proofs.C06b
+import Rva.Proofs.C13b
 namespace Rva
 
 def PState.app (s : PState) (b : List PItem) : PState := { s with items := s.items ++ b }
@@ -370,5 +371,191 @@ theorem include_step_commutes (fuel : Nat) (a rest : List PItem) (below : List (
         hrs _ (by obtain ⟨pre, hpre⟩ := recover_suffix (parseStep a).2; exact ⟨pre, hpre.symm⟩), ?_, ?_⟩
       · rw [parseLoop, hstep]
       · rw [parseLoop, hloc, hres]; simp only [recover_append _ _ hnl]
+
+end Rva
+
+namespace Rva
+
+/-- what the loop leaves on top of the stack after one step on `a` (no `.include`, no end of input) -/
+def nextTop (a : List PItem) : List PItem :=
+  match parseStep a with
+  | (.ok _, rest) => rest
+  | (.error e, rest) => if e.recovers then recover rest else rest
+
+theorem nextTop_shorter (a : List PItem) (h : a ≠ []) : (nextTop a).length < a.length := by
+  have hlen := (parseStep_len a).2 h
+  unfold nextTop
+  cases hr : parseStep a with
+  | mk res rest =>
+    rw [hr] at hlen
+    simp only [] at hlen
+    cases res with
+    | ok x => simp only []; omega
+    | error e =>
+      simp only []
+      split
+      · obtain ⟨pre, hpre⟩ := recover_suffix rest
+        have : (recover rest).length ≤ rest.length := by
+          have := congrArg List.length hpre
+          simp at this; omega
+        omega
+      · omega
+
+/-- every statement of `a`, one after the other as the loop meets them, is covered by the frame rule -/
+inductive SepAll : List PItem → Prop where
+  | nil : SepAll []
+  | step (a : List PItem) : a ≠ [] → StepOK a → SepAll (nextTop a) → SepAll a
+
+/-- `include_step_commutes` with the remainder named: it is `nextTop a` -/
+theorem include_step_commutes' (a rest : List PItem) (below : List (List PItem)) (r : Reader)
+    (nodes : List Node) (errs : List ParseErr) (hok : StepOK a) :
+    ∃ nodes' errs', ∀ fuel,
+      parseLoop (fuel + 1) (a :: rest :: below) r nodes errs =
+        parseLoop fuel (nextTop a :: rest :: below) r nodes' errs' ∧
+      parseLoop (fuel + 1) ((a ++ rest) :: below) r nodes errs =
+        parseLoop fuel ((nextTop a ++ rest) :: below) r nodes' errs' := by
+  obtain ⟨hp, hne, hinc, hrec⟩ := hok
+  have hloc := parseStep_local a rest hp hne
+  cases hres : (parseStep a).1 with
+  | ok x =>
+    have hx := hinc x hres
+    have hstep : parseStep a = (.ok x, (parseStep a).2) := Prod.ext hres rfl
+    have hnt : nextTop a = (parseStep a).2 := by unfold nextTop; rw [hstep]
+    refine ⟨x :: nodes, errs, fun fuel => ⟨?_, ?_⟩⟩
+    · rw [parseLoop, hstep, hnt]; simp only [hx]
+    · rw [parseLoop, hloc, hres, hnt]; simp only [hx]
+  | error e =>
+    have hstep : parseStep a = (.error e, (parseStep a).2) := Prod.ext hres rfl
+    have hr := hrec e hres
+    have hnt : nextTop a = if e.recovers then recover (parseStep a).2 else (parseStep a).2 := by
+      unfold nextTop; rw [hstep]
+    cases e with
+    | unexpectedEOF => exact absurd hres hne
+    | expected ex got =>
+      by_cases hg : (got.kind == TokKind.newline) = true
+      · have hnt' : nextTop a = (parseStep a).2 := by rw [hnt]; simp [LexErr.recovers, hg]
+        refine ⟨nodes, .expected ex got :: errs, fun fuel => ⟨?_, ?_⟩⟩
+        · rw [parseLoop, hstep, hnt']; simp only [hg, if_true]
+        · rw [parseLoop, hloc, hres, hnt']; simp only [hg, if_true]
+      · have hg' : (got.kind == TokKind.newline) = false := by simpa using hg
+        have hnl := hr (by simp [LexErr.recovers, hg'])
+        have hnt' : nextTop a = recover (parseStep a).2 := by rw [hnt]; simp [LexErr.recovers, hg']
+        refine ⟨nodes, .expected ex got :: errs, fun fuel => ⟨?_, ?_⟩⟩
+        · rw [parseLoop, hstep, hnt']; simp only [hg', Bool.false_eq_true, if_false]
+        · rw [parseLoop, hloc, hres, hnt']; simp only [hg', Bool.false_eq_true, if_false, recover_append _ _ hnl]
+    | isNewline t =>
+      have hnt' : nextTop a = (parseStep a).2 := by rw [hnt]; simp [LexErr.recovers]
+      refine ⟨nodes, errs, fun fuel => ⟨?_, ?_⟩⟩
+      · rw [parseLoop, hstep, hnt']
+      · rw [parseLoop, hloc, hres, hnt']
+    | ignoredWithoutWarning =>
+      have hnt' : nextTop a = (parseStep a).2 := by rw [hnt]; simp [LexErr.recovers]
+      refine ⟨nodes, errs, fun fuel => ⟨?_, ?_⟩⟩
+      · rw [parseLoop, hstep, hnt']
+      · rw [parseLoop, hloc, hres, hnt']
+    | needTwoNodes n1 n2 =>
+      have hnt' : nextTop a = (parseStep a).2 := by rw [hnt]; simp [LexErr.recovers]
+      refine ⟨n2 :: n1 :: nodes, errs, fun fuel => ⟨?_, ?_⟩⟩
+      · rw [parseLoop, hstep, hnt']
+      · rw [parseLoop, hloc, hres, hnt']
+    | unexpectedToken t =>
+      have hnl := hr rfl
+      have hnt' : nextTop a = recover (parseStep a).2 := by rw [hnt]; simp [LexErr.recovers]
+      refine ⟨nodes, .unexpectedToken t :: errs, fun fuel => ⟨?_, ?_⟩⟩
+      · rw [parseLoop, hstep, hnt']
+      · rw [parseLoop, hloc, hres, hnt']; simp only [recover_append _ _ hnl]
+    | unexpectedError t =>
+      have hnl := hr rfl
+      have hnt' : nextTop a = recover (parseStep a).2 := by rw [hnt]; simp [LexErr.recovers]
+      refine ⟨nodes, .unexpectedError t :: errs, fun fuel => ⟨?_, ?_⟩⟩
+      · rw [parseLoop, hstep, hnt']
+      · rw [parseLoop, hloc, hres, hnt']; simp only [recover_append _ _ hnl]
+    | unknownDirective t =>
+      have hnl := hr rfl
+      have hnt' : nextTop a = recover (parseStep a).2 := by rw [hnt]; simp [LexErr.recovers]
+      refine ⟨nodes, .unknownDirective t :: errs, fun fuel => ⟨?_, ?_⟩⟩
+      · rw [parseLoop, hstep, hnt']
+      · rw [parseLoop, hloc, hres, hnt']; simp only [recover_append _ _ hnl]
+    | ignoredWithWarning t =>
+      have hnl := hr rfl
+      have hnt' : nextTop a = recover (parseStep a).2 := by rw [hnt]; simp [LexErr.recovers]
+      refine ⟨nodes, .unsupported t :: errs, fun fuel => ⟨?_, ?_⟩⟩
+      · rw [parseLoop, hstep, hnt']
+      · rw [parseLoop, hloc, hres, hnt']; simp only [recover_append _ _ hnl]
+    | unsupportedDirective t =>
+      have hnl := hr rfl
+      have hnt' : nextTop a = recover (parseStep a).2 := by rw [hnt]; simp [LexErr.recovers]
+      refine ⟨nodes, .unsupported t :: errs, fun fuel => ⟨?_, ?_⟩⟩
+      · rw [parseLoop, hstep, hnt']
+      · rw [parseLoop, hloc, hres, hnt']; simp only [recover_append _ _ hnl]
+    | invalidString t k p =>
+      have hnl := hr rfl
+      have hnt' : nextTop a = recover (parseStep a).2 := by rw [hnt]; simp [LexErr.recovers]
+      refine ⟨nodes, .invalidString t k p :: errs, fun fuel => ⟨?_, ?_⟩⟩
+      · rw [parseLoop, hstep, hnt']
+      · rw [parseLoop, hloc, hres, hnt']; simp only [recover_append _ _ hnl]
+
+/-- **C15 (`include_is_paste`).** Reading an included file whose statements the frame rule covers
+    (`SepAll a`: no data directive or macro, no nested `.include`, no statement cut off by the end of
+    the file) and then going on in the including file reaches - one step later, for the return to the
+    includer - exactly the configuration that reading the pasted text `a ++ rest` reaches: the same
+    nodes and parse errors collected, the same reader, the includer's remaining items `rest` on top.
+    From there on the two runs are the same run. -/
+theorem include_is_paste (a : List PItem) (hs : SepAll a) :
+    ∀ (rest : List PItem) (below : List (List PItem)) (r : Reader) (nodes : List Node) (errs : List ParseErr),
+    ∃ k, ∀ fuel, ∃ nodes' errs',
+      parseLoop (fuel + k + 1) (a :: rest :: below) r nodes errs =
+        parseLoop fuel (rest :: below) r nodes' errs' ∧
+      parseLoop (fuel + k) ((a ++ rest) :: below) r nodes errs =
+        parseLoop fuel (rest :: below) r nodes' errs' := by
+  induction hs with
+  | nil =>
+    intro rest below r nodes errs
+    refine ⟨0, fun fuel => ⟨nodes, errs, ?_, ?_⟩⟩
+    · exact include_end_pops fuel rest below r nodes errs
+    · simp
+  | step a hne hok _ ih =>
+    intro rest below r nodes errs
+    obtain ⟨n1, e1, hstep⟩ := include_step_commutes' a rest below r nodes errs hok
+    obtain ⟨k, hk⟩ := ih rest below r n1 e1
+    refine ⟨k + 1, fun fuel => ?_⟩
+    obtain ⟨n', e', h1, h2⟩ := hk fuel
+    refine ⟨n', e', ?_, ?_⟩
+    · have := (hstep (fuel + k + 1)).1
+      rw [show fuel + (k + 1) + 1 = fuel + k + 1 + 1 by omega, this]
+      exact h1
+    · have := (hstep (fuel + k)).2
+      rw [show fuel + (k + 1) = fuel + k + 1 by omega, this]
+      exact h2
+
+end Rva
+
+namespace Rva
+
+/-- the hypotheses of `include_is_paste` are met by real item lists: a label on its own line followed
+    by a blank line (and, by the same steps, any sequence of such lines) -/
+theorem sepAll_label_line (tl tn : FTok) (l : String) (hl : tl.kind = .label)
+    (hll : labelFromStr tl.payload = some l) (hn : tn.kind = .newline) :
+    SepAll [.tok tl, .tok tn] := by
+  have h1 := parseStep_label tl l [.tok tn] hl hll
+  have h2 := parseStep_newline tn [] hn
+  have n1 : nextTop [.tok tl, .tok tn] = [.tok tn] := by unfold nextTop; rw [h1]
+  have n2 : nextTop [.tok tn] = [] := by unfold nextTop; rw [h2]; simp [LexErr.recovers]
+  refine SepAll.step _ (by simp) ⟨?_, ?_, ?_, ?_⟩ ?_
+  · intro t rest d he hk _
+    simp only [List.cons.injEq, PItem.tok.injEq] at he
+    rw [← he.1, hl] at hk; cases hk
+  · rw [h1]; simp
+  · intro x hx; rw [h1] at hx; simp only [Except.ok.injEq] at hx; subst hx; rfl
+  · intro e he; rw [h1] at he; cases he
+  · rw [n1]
+    refine SepAll.step _ (by simp) ⟨?_, ?_, ?_, ?_⟩ ?_
+    · intro t rest d he hk _
+      simp only [List.cons.injEq, PItem.tok.injEq] at he
+      rw [← he.1, hn] at hk; cases hk
+    · rw [h2]; simp
+    · intro x hx; rw [h2] at hx; cases hx
+    · intro e he hr; rw [h2] at he; simp only [Except.error.injEq] at he; subst he; simp [LexErr.recovers] at hr
+    · rw [n2]; exact SepAll.nil
 
 end Rva
